@@ -5,7 +5,8 @@ import itertools
 
 from .. import core
 from ..core import Prop, Violation
-from ._coord import CoordMixin, gen_cfg, gen_exec, gen_multi_kill, gen_ended_in_callback, CP_SCRIPTS
+from ._coord import (CoordMixin, gen_cfg, gen_exec, gen_multi_kill, gen_ended_in_callback, gen_two_systems, gen_nest,
+                     CP_SCRIPTS)
 
 FINDING = "C14-work-after-kill-in-g1-checkpoint"
 
@@ -45,6 +46,8 @@ class C14(CoordMixin, Prop):
     # --- generation ---------------------------------------------------------------------------------------
     def _setup_lines(self, rng, nres, nothers):
         lines = [gen_cfg(rng)]
+        if rng.random() < 0.12:
+            lines.append(f"ids {rng.choice(['r', 'a', 'ra'])}")     # unprintable resource ids / agent id
         for r in range(1, nres + 1):
             lines.append(f"res {r} {rng.choice('01')}")
         others = list(range(2, 2 + nothers))
@@ -69,8 +72,12 @@ class C14(CoordMixin, Prop):
             return rng.choice(["watchdog", "maint", "boost", "deadlock"])
         if c < 0.60:
             return f"adv {rng.choice([1, 5, 6, 11])}"
-        if c < 0.62:
+        if c < 0.61:
             return "shutdown"
+        if c < 0.62:
+            return rng.choice([f"setwd {rng.choice(['none', '0', '5', '10'])} {rng.choice(['none', '5'])} "
+                               f"{rng.choice(['none', '5'])} {rng.choice(['priority', 'oldest', 'other'])}",
+                               f"setsys {rng.choice(['none', '0', '5'])} none {rng.choice(['none', '5'])}"])
         if c < 0.64:
             return f"exempt {o} {rng.choice('01')}"
         return gen_exec(rng, rng.choice([1, 1, 1, 5]), nres, [x for x in ops if x != 1])
@@ -80,6 +87,10 @@ class C14(CoordMixin, Prop):
             yield gen_multi_kill(rng)
         for i in range(max(40, n // 12)):
             yield gen_ended_in_callback(rng)
+        for i in range(max(20, n // 25)):
+            yield gen_two_systems(rng)
+        for i in range(max(10, n // 60)):
+            yield gen_nest(rng)
         # timeout boundaries: below / at / above each limit
         for i in range(max(6, n // 100)):
             L = rng.choice([1, 5, 10])
@@ -206,6 +217,9 @@ class C14(CoordMixin, Prop):
             # id reuse while active: outside the quantifier, stop judging
             if k in ("start", "exec", "cell") and len(t) > 1 and prev is not None and t[1] in prev["active"]:
                 break
+            if k in ("use", "cfg"):      # another system from here on: nothing to compare the previous state with
+                prev = st
+                continue
             if (k == "exec" and len(t) == 7) or (k == "cell" and len(t) == 8):
                 op = t[1]
                 if "raised" in info and "success" not in info:
@@ -278,6 +292,21 @@ class C14(CoordMixin, Prop):
                                          "CellExecutionResult.success=True, CoordinationResult.success=False", idx))
                 if k == "cell" and info.get("has_output") and not info.get("cell_success"):
                     out.append(Violation("no_output_unless_success", "output None on failure", "output released", idx))
+            if k == "nest" and "nest" in info:
+                # search-only (work_fn re-enters execute_operation): both calls have returned - neither operation owns,
+                # waits for or is listed as anything
+                if "raised" in info:
+                    out.append(Violation("returns", "the call returns a result object", f"raise:{info['raised']}", idx))
+                for a in set(info["nest"]):
+                    if a in st["active"]:
+                        out.append(Violation("not_active_after_exit", f"op{a} not in active_operations", "still listed", idx))
+                    for r, l in st["locks"].items():
+                        if l["owner"] == a:
+                            out.append(Violation("no_leak_on_any_exit", f"r{r} not owned by op{a} after the nested calls",
+                                                 f"owner=op{a} hold_count={l['hold']}", idx))
+                        if any(x == a for x, _ in l["waiting"]):
+                            out.append(Violation("not_waiting_after_exit", f"op{a} not in waiting list of r{r}",
+                                                 f"waiting={l['waiting']}", idx))
             # every operation named in a returned termination event is terminated
             for a, why in list(info.get("events", [])) + list(info.get("work_events", [])):
                 if a in st["active"]:
@@ -304,6 +333,9 @@ class C14(CoordMixin, Prop):
                 break
             prev = st
         return out
+
+    def normalise(self, line):
+        return "search-only" if line.startswith("search-only") else line
 
     def nontrivial(self, case, obs):
         return any(l.startswith(("exec", "cell")) and "bbbb n:ok yes" not in l for l in case["lines"])
